@@ -15,6 +15,7 @@ RULES = {
     "R-14.1": "the ordered ctx.update() inputs of _digest equal the RFC 8945 4.3 composition under every valuation of (first, request MAC present); multi-message continuation starts with the length-prefixed prior MAC",
     "R-14.2": "validate digests the message with ARCOUNT-1 cut at the TSIG, performs error/time/key/algorithm checks before the MAC check, and every normal return is dominated by ctx.verify(rdata.mac); HMAC verify is a constant-time comparison of the (possibly truncated) digest",
     "R-14.3": "HMACTSig._hashes and mac_sizes agree (keys, hash function per algorithm name, digest or truncated size)",
+    "R-14.9": "the algorithm a signer writes into the TSIG record is the algorithm of the key that computes the MAC: Renderer.add_tsig / add_multi_tsig build the template with `key.algorithm` (a Key object of another algorithm than the `algorithm` argument would otherwise produce a message its own key rejects with BadAlgorithm)",
     "R-14.8": "the TSIG record is read exactly: the 48-bit time, the 16-bit fudge/sizes and the MAC come through the bounded, exact-width Parser reads (rule of C04 R-04.5, run here directly)",
     "R-14.7": "every field of the TSIG RR that the digest replaces by a constant is pinned by the reader: _digest packs TTL 0 (RFC 8945 4.2: the TTL MUST be 0), so the wire reader refuses a TSIG RR whose TTL is not 0 before it validates - otherwise 32 bits of the signed message can be altered without the MAC noticing",
     "R-14.6": "every transport verifies the response against the MAC of the query it sent: the request_mac handed to the response parser is the query's `.mac` (or the function's own request_mac parameter), never `.request_mac` of the query (b'' for a query); a TSIG-keyed transfer ends with a signed message",
@@ -339,6 +340,17 @@ def run(model, rep, tier):
         rep.check(okk, "R-14.7", gs7.qualname, where(gs7, vals[0].ast), "a TSIG RR with a non-zero TTL is refused before validation (the digest assumes 0)",
                   "_digest packs a constant 0 for the TSIG TTL, and nothing refuses a TSIG RR whose wire TTL is not 0 before dns.tsig.validate: flipping any of the 32 TTL bits of a signed "
                   "message still validates", stmt="tsig-ttl")
+    for qn in ("dns.renderer.Renderer.add_tsig", "dns.renderer.Renderer.add_multi_tsig"):
+        f9 = model.func(qn)
+        mk9 = [c for c in ast.walk(f9.node) if isinstance(c, ast.Call) and src(c.func).endswith("_make_tsig") and len(c.args) >= 2]
+        signs = [c for c in ast.walk(f9.node) if isinstance(c, ast.Call) and src(c.func) == "dns.tsig.sign" and len(c.args) >= 2]
+        if len(mk9) != 1 or len(signs) != 1:
+            rep.blind("R-14.9", qn, where(f9, f9.node), "the `_make_tsig(keyname, algorithm, ...)` / `dns.tsig.sign(wire, key, ...)` calls were not found", stmt="template-algorithm")
+        else:
+            keyvar = src(signs[0].args[1])
+            rep.check(src(mk9[0].args[1]) == f"{keyvar}.algorithm", "R-14.9", qn, where(f9, mk9[0]), f"TSIG template algorithm = {keyvar}.algorithm",
+                      f"the TSIG template is built with algorithm `{src(mk9[0].args[1])}` but the MAC is computed by `{keyvar}` (its own algorithm): with a Key of another algorithm the message is rejected by "
+                      "that same key (BadAlgorithm)", stmt="template-algorithm")
     from rules.c04 import check_parser_reads
     check_parser_reads(model, rep, "R-14.8")
     rep.meta["explanation"] = (
@@ -348,6 +360,9 @@ def run(model, rep, tier):
 
 
 WITNESSES = [
+    {"id": "c14-add-tsig-template-from-argument", "rule": "R-14.9", "file": "dns/renderer.py", "expect": "fires",
+     "old": "            keyname, key.algorithm, 0, fudge, b\"\", id, tsig_error, other_data\n        )\n        tsig, _ = dns.tsig.sign(s, key, tsig[0], int(time.time()), request_mac)",
+     "new": "            keyname, algorithm, 0, fudge, b\"\", id, tsig_error, other_data\n        )\n        tsig, _ = dns.tsig.sign(s, key, tsig[0], int(time.time()), request_mac)"},
     {"id": "c14-tsig-ttl-unchecked", "rule": "R-14.7", "file": "dns/message.py", "expect": "fires",
      "old": "                    if ttl != 0:\n                        # RFC 8945 section 4.2: the TTL MUST be 0 (it is digested as 0)\n                        raise BadTSIG\n", "new": ""},
     {"id": "c14-doh-verifies-against-request-mac", "rule": "R-14.6", "file": "dns/query.py", "expect": "fires",
